@@ -57,6 +57,17 @@ pub fn exec(op: &str, a: &[String]) -> Option<Reply> {
             };
             Some(Reply { obs: vec![dump, errs], reply: show_run(&r) })
         }
+        (o, [src, event, metadata, faults]) if o.starts_with("o.c") => {
+            // Spec oracle: same run; the observed outcome/event/metadata/variables are observations
+            let r = exec("lang.run", &[src.clone(), event.clone(), metadata.clone(), faults.clone()])?;
+            let mut obs = r.obs;
+            let parts: Vec<&str> = r.reply.split('\t').collect();
+            if parts.len() < 4 {
+                return None;
+            }
+            obs.extend(parts[..4].iter().map(|p| (*p).to_string()));
+            Some(Reply::oracle(obs))
+        }
         _ => None,
     }
 }
@@ -323,7 +334,7 @@ impl<'a> Gen<'a> {
         self.stats.push("closure");
         let coll = self.expr(ty, depth);
         let p0 = *self.rng.pick(&["k", "_k", "x", "kk"]);
-        let p1 = *self.rng.pick(&["v", "_v", "y", "vv"]);
+        let p1 = *self.rng.pick(&["v", "_v", "y", "vv", "x"]);
         match self.rng.below(3) {
             0 => format!("filter({coll}) -> |{p0}, {p1}| {{ {} }}", self.closure_body(Ty::Bool, depth, &[p0, p1])),
             1 => format!("map_values({coll}) -> |{p1}| {{ {} }}", self.closure_body(Ty::Any, depth, &[p1])),
@@ -387,7 +398,7 @@ impl<'a> Gen<'a> {
                 let ty = if self.rng.chance(1, 2) { Ty::Arr } else { Ty::Obj };
                 let coll = self.expr(ty, depth);
                 let p0 = *self.rng.pick(&["k", "_k", "x"]);
-                let p1 = *self.rng.pick(&["v", "_v", "y"]);
+                let p1 = *self.rng.pick(&["v", "_v", "y", "x"]);
                 format!("for_each({coll}) -> |{p0}, {p1}| {{ {} }}", self.closure_body(Ty::Any, depth, &[p0, p1]))
             }
             6 => format!("del({})", self.any_path()),
@@ -481,7 +492,7 @@ pub fn gen_metadata(rng: &mut Rng) -> Value {
     Value::Object(m)
 }
 
-pub fn generate(sink: &mut Sink, rng: &mut Rng, n: u64, with_faults: bool) {
+pub fn generate(sink: &mut Sink, rng: &mut Rng, n: u64, with_faults: bool, oracle: Option<&str>) {
     let mut accepted = 0u64;
     let mut tried = 0u64;
     while accepted < n && tried < n * 20 {
@@ -509,9 +520,14 @@ pub fn generate(sink: &mut Sink, rng: &mut Rng, n: u64, with_faults: bool) {
             } else {
                 "-".to_string()
             };
+            let faults_s = faults.clone();
             if let Some(r) = sink.emit("lang.run", &[hex(src.as_bytes()), show_value(&event), show_value(&meta), faults]) {
                 let class = r.reply.split(['\t', ' ']).next().unwrap_or("").to_string();
                 sink.count(&format!("lang:outcome:{class}"));
+                if let Some(o) = oracle {
+                    let inputs = [hex(src.as_bytes()), show_value(&event), show_value(&meta), faults_s.clone()];
+                    sink.emit(o, &inputs);
+                }
             }
         }
     }
